@@ -18,7 +18,18 @@ def run(ctx):
     disagreements = 0
     samples = []
     classes = {}
+    out_of_proportion = 0
     for f in T.iter_cases(prep["cases"]):
+        if f[0] == "Q":
+            _, cid, mode, hints, hx, alloc = f
+            out_of_proportion += 1
+            allowed = 512 * (len(hx) // 2) + (1 << 20)
+            C.violation(ctx, "alloc-out-of-proportion:%s:%s:%s" % (mode, hints, hashlib.sha1(hx.encode()).hexdigest()[:10]),
+                        "decoding %d bytes %s (%s, hints %s) allocates %s bytes (allowed: 512 per input byte + 1 MiB = %d)"
+                        % (len(hx) // 2, T.short(hx, 80), mode, hints, alloc, allowed),
+                        {"kind": "D", "mode": mode, "hints": hints, "hex": hx, "expected": "value or error", "oracle": "allocation",
+                         "allocated": int(alloc), "allowed": allowed})
+            continue
         if f[0] != "D":
             continue
         _, cid, mode, hints, hx, impl = f
@@ -60,7 +71,10 @@ def run(ctx):
          "rule": "every valid encoding produced for C01 is decoded by name and by id, then mutated: prefix truncation, 32-bit words replaced by boundary integers "
                  "(0, -1, 2^31-1, 2^31, 0xfe headers) / registered constructor ids / enum ids / vector, bool, null, gzip, container ids, single bit flips, trailing junk; "
                  "bare enum ids; bare vectors with and without hints; containers with negative and huge counts and sizes; gzip payloads (valid, nested, corrupt, truncated); "
-                 "vectors announcing up to 2^32-1 elements. non-trivial = distinct (mode, hints, bytes)",
+                 "vectors announcing up to 2^32-1 elements, long-form byte-string headers announcing 16 MB; hints: slices of int/long/string/bytes/bool/double, of struct pointers and of interfaces. "
+                 "every decode is charged with the heap bytes the library call allocated (runtime/metrics /gc/heap/allocs:bytes, after a warm-up): more than 512 bytes per input byte + 1 MiB is a violation "
+                 "unless the input holds a gzip_packed id. non-trivial = distinct (mode, hints, bytes)",
+         "allocation_out_of_proportion": out_of_proportion,
          "samples": samples, "input_distribution": prep["stats"], "result_classes": classes, "disagreements_checked": disagreements,
          "projection": "result class ok/err/panic(fatal) and, on ok, the abstracted value"})
     return C.finish(ctx, "proof", cov, [
@@ -75,6 +89,12 @@ def replay(ctx, path):
         rc, out = C.sh([prep_hb, "one", "D", obj["mode"], obj["hints"], obj["hex"]], env=ctx.env(), timeout=120)
         got = out.strip().splitlines()[-1] if out.strip() else "fatal"
         print("decode(%s,%s,%s...) -> %s" % (obj["mode"], obj["hints"], obj["hex"][:40], got[:200]))
+        if obj.get("oracle") == "allocation":
+            al = [l.split("\t") for l in out.splitlines() if l.startswith("alloc\t")]
+            if al and int(al[-1][1]) > int(al[-1][2]):
+                print("allocated %s bytes, allowed %s" % (al[-1][1], al[-1][2]))
+                print("VIOLATION property=C15 replay=%s" % path)
+                return 1
         if got.startswith("panic") or got.startswith("fatal"):
             print("VIOLATION property=C15 replay=%s" % path)
             return 1
